@@ -498,9 +498,11 @@ impl ChannelManager {
 
     let resource = transmitter.as_ref().map(|transmitter| transmitter.resource());
 
-    channel_inner
+    // The member is removed whether or not the announcement succeeds: a failed notification must
+    // not leave a departed (possibly disconnected) user behind as a member.
+    let left_result = channel_inner
       .notify_member_left(&left_member_nid, resource, as_owner, router.c2s_router().local_domain().clone())
-      .await?;
+      .await;
 
     channel_inner.remove_member(&left_member_nid);
 
@@ -510,26 +512,28 @@ impl ChannelManager {
       in_channels_set.is_empty()
     });
 
+    // If the channel is now empty, release it. Otherwise, if the left member was the owner,
+    // pick a new owner (randomly) and notify all members.
+    let mut joined_result = Ok(());
+
+    if channel_inner.is_empty() {
+      channels.remove(&channel_inner.handler);
+    } else if as_owner {
+      let new_owner_nid = channel_inner.pick_new_owner().unwrap();
+
+      joined_result = channel_inner
+        .notify_member_joined(&new_owner_nid, None, true, router.c2s_router().local_domain().clone())
+        .await;
+    }
+
+    left_result?;
+
     // Send response back to the client if a handler is provided.
     if let Some(transmitter) = transmitter {
       transmitter.send_message(Message::LeaveChannelAck(LeaveChannelAckParameters { id: correlation_id }));
     }
 
-    // If the channel is now empty, release it.
-    if channel_inner.is_empty() {
-      channels.remove(&channel_inner.handler);
-
-      return Ok(());
-    }
-
-    // If the left member was the owner, pick a new owner (randomly) and notify all members.
-    if as_owner {
-      let new_owner_nid = channel_inner.pick_new_owner().unwrap();
-
-      channel_inner
-        .notify_member_joined(&new_owner_nid, None, true, router.c2s_router().local_domain().clone())
-        .await?;
-    }
+    joined_result?;
 
     Ok(())
   }
@@ -549,8 +553,16 @@ impl ChannelManager {
     drop(mng_guard);
 
     if let Some((_, in_channels_set)) = in_channels.remove(&nid.username) {
+      // Leave every channel even if one of the departures fails; report the first failure.
+      let mut first_error = None;
+
       for channel_id in in_channels_set.iter() {
-        self.leave_channel(channel_id.clone(), nid.clone(), None, None, 0).await?;
+        if let Err(e) = self.leave_channel(channel_id.clone(), nid.clone(), None, None, 0).await {
+          first_error.get_or_insert(e);
+        }
+      }
+      if let Some(e) = first_error {
+        return Err(e);
       }
     }
     Ok(())
